@@ -10,6 +10,7 @@ Helper lemmas: SpsdkVerif/Proofs/Sb2Cmd.lean, Sb2Section.lean, Sb2Image.lean.
 import SpsdkVerif.Proofs.Sb2Image
 import SpsdkVerif.Proofs.Sb2Sig
 import SpsdkVerif.Proofs.Sb2Parse
+import SpsdkVerif.Proofs.Sb2Tamper
 import SpsdkVerif.Proofs.ExecLaws
 
 namespace SpsdkVerif.Properties.C04
@@ -317,6 +318,94 @@ theorem signed_range_tamper_v20 (h : CryptoLaws c) (cfg : Cfg) (wf : Spec.WF20 c
     (n : Nat) (hv : c.verify alg (c.pubOf sk) (file'.take n) cfg.signature = true) : Break c :=
   Sb2.signed_range_tamper_v20 h cfg wf alg sk r hsig file' hl i hi hd n hv
 
+/-! ### Phase 3: header fields and multi-section layout spelled out; one changed byte in the section area -/
+
+/-- every header value the builder was given comes back from the ROM model reading the exported file: flags (with or
+    without the SHA bit), timestamp, product and component version (each its own BCD triple), build number, nonce —
+    for ALL values in range — together with the derived layout words the format prescribes
+    (header blocks 6, key blob at block 8 with 5 blocks, certificate block at byte 208). -/
+theorem rom_header_fields_v21 (h : CryptoLaws c) (cfg : Cfg) (wf : Spec.WF21 cfg) :
+    (Rom.romV21 c cfg.kek (buildV21 c cfg)).map
+        (fun r => (r.major, r.minor, r.flags, r.timestamp, r.productVersion, r.componentVersion, r.buildNumber, r.nonce,
+                   r.headerBlocks, r.keyBlobBlock, r.keyBlobBlockCount, r.offsetToCert))
+      = .ok (2, 1, cfg.flags, cfg.timestamp, cfg.productVersion, cfg.componentVersion, cfg.buildNumber, cfg.nonce, 6, 8, 5, 208) := by
+  rw [rom_accepts_v21 h cfg wf]; rfl
+
+/-- SB 2.0 twin (flags are 8 = signed / 4 = encrypted only; `cfg.flags` is not an input of `BootImageV20`) -/
+theorem rom_header_fields_v20 (h : CryptoLaws c) (cfg : Cfg) (signed : Bool) (wf : Spec.WF20 cfg signed) :
+    (Rom.romV20 c cfg.kek (buildV20 c cfg signed)).map
+        (fun r => (r.major, r.minor, r.flags, r.timestamp, r.productVersion, r.componentVersion, r.buildNumber, r.nonce,
+                   r.headerBlocks, r.keyBlobBlock, r.keyBlobBlockCount))
+      = .ok (2, 0, if signed then 8 else 4, cfg.timestamp, cfg.productVersion, cfg.componentVersion, cfg.buildNumber,
+             cfg.nonce, 6, 8, 5) := by
+  rw [rom_accepts_v20 h cfg signed wf]; rfl
+
+/-- multi-section images, any number of sections: the ROM sees the sections in the order given, each with its id,
+    flags BOOTABLE|LAST_SECT (SPSDK sets the last-section bit on every section), a MAC table of
+    `min (max hmac_count 1) (blocks of the section)` entries and its commands; the header announces the first id,
+    the sum of the table sizes, and `image_blocks` counts every section's `48 + 32·macs + stream` bytes. -/
+theorem rom_sections_v21 (h : CryptoLaws c) (cfg : Cfg) (wf : Spec.WF21 cfg) :
+    (Rom.romV21 c cfg.kek (buildV21 c cfg)).map
+        (fun r => (r.sections.map (fun s => (s.uid, s.flags, s.hmacCount, s.cmds)), r.firstBootSectionId,
+                   r.maxSectionMacCount, r.imageBlocks * 16))
+      = .ok (cfg.sections.map (fun s => (s.uid, 0x8001, min (max s.hmacCount 1) (Spec.cmdsLen s.cmds / 16), s.cmds.map Spec.view)),
+             (cfg.sections.head?.map (·.uid)).getD 0,
+             (cfg.sections.map (fun s => min (max s.hmacCount 1) (Spec.cmdsLen s.cmds / 16))).sum,
+             (Spec.expected21 cfg).firstBootTagBlock * 16 +
+               (cfg.sections.map (fun s => 48 + 32 * min (max s.hmacCount 1) (Spec.cmdsLen s.cmds / 16) + Spec.cmdsLen s.cmds)).sum) := by
+  have hl := (header_describes_file h cfg wf).1
+  have hd := (header_describes_file h cfg wf).2.1
+  have hs := (header_describes_file h cfg wf).2.2.1
+  have hlen : (buildV21 c cfg).length = (Spec.expected21 cfg).firstBootTagBlock * 16 + Spec.sectionsLen cfg.sections := by
+    have h1 : (Spec.expected21 cfg).firstBootTagBlock * 16 ≤ (buildV21 c cfg).length := by
+      by_cases hc : (Spec.expected21 cfg).firstBootTagBlock * 16 ≤ (buildV21 c cfg).length
+      · exact hc
+      · exfalso
+        have hnil : (buildV21 c cfg).drop ((Spec.expected21 cfg).firstBootTagBlock * 16) = [] :=
+          List.drop_eq_nil_of_le (by omega)
+        rw [hnil] at hd
+        rw [← hd] at hs
+        obtain ⟨_, _, _, _, _, _, _, _, _, _, _, _, wne, wsec, _, _⟩ := wf
+        have := sections_length_le cfg.sections wsec
+        have : 0 < cfg.sections.length := List.length_pos_iff.2 wne
+        simp at hs
+        omega
+    have h2 := congrArg List.length hd
+    rw [List.length_drop, hs] at h2
+    omega
+  rw [rom_accepts_v21 h cfg wf]
+  simp only [Except.map]
+  have e1 : (Spec.expected21 cfg).sections.map (fun s => (s.uid, s.flags, s.hmacCount, s.cmds))
+      = cfg.sections.map (fun s => (s.uid, 0x8001, min (max s.hmacCount 1) (Spec.cmdsLen s.cmds / 16), s.cmds.map Spec.view)) := by
+    simp only [Spec.expected21, List.map_map]
+    rfl
+  have e2 : (Spec.expected21 cfg).maxSectionMacCount
+      = (cfg.sections.map (fun s => min (max s.hmacCount 1) (Spec.cmdsLen s.cmds / 16))).sum := rfl
+  have e3 : Spec.sectionsLen cfg.sections
+      = (cfg.sections.map (fun s => 48 + 32 * min (max s.hmacCount 1) (Spec.cmdsLen s.cmds / 16) + Spec.cmdsLen s.cmds)).sum := rfl
+  rw [e1, e2, ← e3, ← hlen, hl]
+  rfl
+
+/-- Tamper side, whole image (SB 2.1): change ONE byte anywhere behind the first boot tag — an encrypted section
+    header, its MAC, any MAC-table entry, any ciphertext block, of ANY section of an image with any number of sections —
+    and the ROM model refuses the file, or two different byte strings with the same HMAC-SHA256 under the image's MAC key
+    are exhibited (`Break.hmacForgery`).  Induction over the section list on top of `section_header_tampered`,
+    `section_macs_tampered`, `section_body_tampered`.  Together with `signed_range_tamper` (bytes in front of the
+    signature) this covers every region of the file except the signature bytes themselves. -/
+theorem image_section_byte_tampered_v21 (h : CryptoLaws c) (cfg : Cfg) (wf : Spec.WF21 cfg) (i : Nat) (v : UInt8)
+    (hi1 : (Spec.expected21 cfg).firstBootTagBlock * 16 ≤ i) (hi2 : i < (buildV21 c cfg).length)
+    (hv : some v ≠ (buildV21 c cfg)[i]?) :
+    (∃ e, Rom.romV21 c cfg.kek ((buildV21 c cfg).set i v) = .error e) ∨ Break c := by
+  have hstart : (Spec.expected21 cfg).firstBootTagBlock * 16 = start21 cfg := start21_aligned cfg wf
+  exact romV21_section_byte_tampered h cfg wf i v (by omega) hi2 hv
+
+/-- the same for exactly the compiled primitives the driver runs -/
+theorem exec_image_section_byte_tampered_v21 (cfg : Cfg) (wf : Spec.WF21 cfg) (i : Nat) (v : UInt8)
+    (hi1 : (Spec.expected21 cfg).firstBootTagBlock * 16 ≤ i) (hi2 : i < (buildV21 Crypto.execOps cfg).length)
+    (hv : some v ≠ (buildV21 Crypto.execOps cfg)[i]?) :
+    (∃ e, Rom.romV21 Crypto.execOps cfg.kek ((buildV21 Crypto.execOps cfg).set i v) = .error e) ∨ Break Crypto.execOps :=
+  image_section_byte_tampered_v21 Crypto.execOps_laws cfg wf i v hi1 hi2 hv
+
 /-! ## 6. The compiled instance: the driver's `execOps` (FIPS-197 AES, FIPS-180 SHA-256 written in Lean) satisfies the
     laws (Proofs/ExecLaws.lean), so the theorems hold for exactly the functions the harness runs natively -/
 
@@ -350,6 +439,8 @@ example : Parse.kekLenOk demoCfg.kek = true ∧ Parse.bcdVersionOk demoCfg.produ
   refine ⟨by decide, ⟨by decide, by decide, by decide⟩, ⟨by decide, by decide, by decide⟩, by decide⟩
 example : ((Parse.parsedOf21 demoCfg).sections.map (fun s => (s.uid, s.hmacCount, s.cmds.length))) = [(0, 2, 12), (7, 1, 1)] := by decide
 example : Spec.WF21 demoCfg := by decide +kernel
+/-- hypotheses of `image_section_byte_tampered_v21` are satisfiable: byte 704 (first section's encrypted header) exists -/
+example : (Spec.expected21 demoCfg).firstBootTagBlock * 16 = 704 ∧ 704 < Spec.fileLen21 demoCfg := by decide +kernel
 example : Spec.WF20 demoCfg true ∧ Spec.WF20 demoCfg false := by decide +kernel
 example : ∀ x ∈ demoCmds, Spec.WFcmd x := by decide
 example : (Spec.expected21 demoCfg).imageBlocks * 16 = 208 + 160 + 32 + 256 + (48 + 64 + 13 * 16) + (48 + 32 + 16) := by decide +kernel
